@@ -18,11 +18,35 @@ func init() {
 			"(adjacent, identical, straddling the x/y seam, far apart) with layer counts 0..4 for the N-layer query. Oracle: set equality with {shift_ref(id,o)}, exact counts 6/8/26/(2H+1)^2(2V+1)-1 and " +
 			"absence of the input where the stencil is narrower than the grid, len==|set| for the N-layer result, a in N(b) <=> b in N(a). Non-trivial = always (every case queries >= 4 stencils); distinct by (ID, list, layers).",
 		Assume: []string{"reference: ref.Shift (integer modular arithmetic)"},
-		N:      tierN(60_000, 2_000_000),
-		Batch:  func(t string) int64 { return tierN(60_000, 2_000_000)(t)/16 + 1 },
-		Floor:  tierN(1000, 10000),
-		Run:    runC08,
+		N:      func(t string) int64 { return c08Directed + tierN(60_000, 2_000_000)(t) },
+		Exhaustive: func(string) []string {
+			return []string{"all 126 IDs with h <= 2, v <= 1 x all layer pairs 0..2 x 0..2 (6/8/26 stencils and the N-layer query on the single voxel)"}
+		},
+		Batch: func(t string) int64 { return tierN(60_000, 2_000_000)(t)/16 + 1 },
+		Floor: tierN(1000, 10000),
+		Run:   runC08,
 	})
+}
+
+const c08Directed = 126 * 9
+
+var c08Small []ref.ID
+
+func c08SmallIDs() []ref.ID {
+	if c08Small == nil {
+		for h := int64(0); h <= 2; h++ {
+			for v := int64(0); v <= 1; v++ {
+				for x := int64(0); x < pow2(h); x++ {
+					for y := int64(0); y < pow2(h); y++ {
+						for f := -pow2(v); f < pow2(v); f++ {
+							c08Small = append(c08Small, ref.ID{H: h, X: x, Y: y, V: v, F: f})
+						}
+					}
+				}
+			}
+		}
+	}
+	return c08Small
 }
 
 func stencil6() [][3]int64 {
@@ -65,7 +89,7 @@ func wantStencil(ids []ref.ID, offs [][3]int64) map[string]struct{} {
 
 func runC08(c *core.Case) {
 	r := c.R
-	if r.P(0.02) { // consecutive neighbourhood queries on two IDs that collide under a common 32-bit string hash
+	if c.I >= c08Directed && r.P(0.02) { // consecutive neighbourhood queries on two IDs that collide under a common 32-bit string hash
 		pairs := hashCollisionPairs()
 		if len(pairs) > 0 {
 			p := pairs[r.Intn(len(pairs))]
@@ -108,6 +132,12 @@ func runC08(c *core.Case) {
 		id = genID(r, 0, 3, 0, 35) // tiny grids: wrapped neighbours coincide
 	} else {
 		id = genID(r, 0, 35, 0, 35)
+	}
+	forced := c.I < c08Directed
+	if forced { // exhaustive sub-scope: every ID with h <= 2, v <= 1, every layer pair 0..2 x 0..2, single-voxel list
+		small := c08SmallIDs()
+		id = small[c.I/9]
+		c.Tag("exhaustive-small-grids")
 	}
 	s := id.Ext()
 	var obs []string
@@ -177,6 +207,9 @@ func runC08(c *core.Case) {
 	k := 1 + r.Intn(5)
 	if r.P(0.4) {
 		k = 1
+	}
+	if forced {
+		hl, vl, k = (c.I%9)/3, c.I%3, 1
 	}
 	list := []ref.ID{id}
 	for len(list) < k {
